@@ -11,6 +11,7 @@
       monotonicity in height.
 -/
 import Ladybug.Proofs.C18Lemmas
+import Ladybug.Proofs.C18Table
 import Ladybug.Proofs.C18Wind
 import Ladybug.Gen.LazyDeps
 
@@ -85,37 +86,132 @@ theorem C18_forgotten_reset_counterexample_shape :
     (run toyBad (fresh 5) [.read 1, .set () 7, .read 1]).1 ≠ expected toyBad 5 [.read 1, .set () 7, .read 1] := by
   decide
 
-/-! ### (b) the regenerated tables -/
+/-! ### (b) the table machine is sound for every well-formed table -/
 
-/-- ViewSphere: 11 lazily built tables; each getter fills the slot it returns, no two getters
-define one slot by different code (fails on a tree where `tregenza_solid_angles` stores into
-`_reinhart_solid_angles`). -/
+/-- MAIN CONNECTION.  For every dependency table that passes `wellFormed`, and for EVERY history of
+getter reads and setter calls of that table (any order, any repetitions, any length), every read of
+the table machine – the executable semantics that the correspondence run compares with the real
+objects – answers `ok`: each cache attribute the getter looks at is present (no read fails, no
+`None`/missing attribute), holds the getter's own defining expression (no other getter's), and
+was evaluated on the settings current at the moment of the read (nothing stale), i.e. what a fresh
+object with the final settings returns. -/
+theorem C18_table_sound (t : ClassTable) (h : t.wellFormed = true) (ops : List TOp) :
+    ∀ v ∈ runT t TState.empty ops, v = Verdict.ok :=
+  runT_ok (wf_of_wellFormed h) ops TState.empty (inv_empty (wf_of_wellFormed h))
+
+/-- … hence the answer to a read does not depend on the order or repetition of earlier reads and
+setter calls: in any two histories all reads answer alike. -/
+theorem C18_table_order_independent (t : ClassTable) (h : t.wellFormed = true) (ops₁ ops₂ : List TOp) :
+    ∀ v₁ ∈ runT t TState.empty ops₁, ∀ v₂ ∈ runT t TState.empty ops₂, v₁ = v₂ := by
+  intro v₁ h₁ v₂ h₂
+  rw [C18_table_sound t h ops₁ v₁ h₁, C18_table_sound t h ops₂ v₂ h₂]
+
+/-- The invariant behind it, for any reachable state: nothing cached is stale, every cached entry
+was made by a block of the table or assigned by a setter, and a block whose guard attributes are
+present has all its slots present; it is kept by every getter read and every setter call. -/
+theorem C18_table_invariant (t : ClassTable) (h : t.wellFormed = true) (st : TState) (hi : Inv t st) :
+    (∀ g ∈ t.getters, (stepGet t g st).1 = Verdict.ok ∧ Inv t (stepGet t g st).2) ∧
+    (∀ s ∈ t.setters, Inv t (stepPut t s st)) :=
+  ⟨fun _ hg => stepGet_spec (wf_of_wellFormed h) hi hg, fun _ hs => stepPut_inv (wf_of_wellFormed h) hi hs⟩
+
+/-- The memo object DENOTED by a well-formed table (configuration = version of every attribute,
+value of a slot = its defining expression with the versions of everything it reads, a setter
+clears what the table says) satisfies the frame condition of the generic theorems … -/
+theorem C18_table_frame (t : ClassTable) (h : t.wellFormed = true) : Frame t.denote :=
+  denote_frame (wf_of_wellFormed h)
+
+/-- … so the generic theorems apply to it: after ANY history of reads and setter calls, reading a
+slot gives what a fresh object built directly with the final settings gives. -/
+theorem C18_table_used_eq_fresh (t : ClassTable) (h : t.wellFormed = true) (c : Nat → Nat)
+    (ops : List (Op Nat Nat Unit)) (i : Nat) :
+    (read t.denote (run t.denote (fresh c) ops).2 i).1 =
+      (read t.denote (fresh (finalCfg t.denote c ops)) i).1 :=
+  C18_used_eq_fresh_final t.denote (C18_table_frame t h) c ops i
+
+/-! ### the regenerated tables: `wellFormed` by `decide`, every history order-independent -/
+
+/-- ViewSphere: 11 lazily built tables; the regenerated table is well-formed (fails on a tree where
+`tregenza_solid_angles` stores into `_reinhart_solid_angles`). -/
 theorem C18_deps_ViewSphere : Gen.LazyDeps.tblViewSphere.wellFormed = true := by decide +kernel
+/-- ViewSphere: every read in every history of reads answers its own table, in any order. -/
+theorem C18_history_ViewSphere (ops : List TOp) :
+    ∀ v ∈ runT Gen.LazyDeps.tblViewSphere TState.empty ops, v = Verdict.ok :=
+  C18_table_sound _ C18_deps_ViewSphere ops
 
 /-- SQLiteResult: ten lazily extracted summaries. -/
 theorem C18_deps_SQLiteResult : Gen.LazyDeps.tblSQLiteResult.wellFormed = true := by decide +kernel
+/-- SQLiteResult: every history of reads is order-independent. -/
+theorem C18_history_SQLiteResult (ops : List TOp) :
+    ∀ v ∈ runT Gen.LazyDeps.tblSQLiteResult TState.empty ops, v = Verdict.ok :=
+  C18_table_sound _ C18_deps_SQLiteResult ops
 
 /-- AnalysisPeriod: `_timestamps_data` / `_datetimes` filled together by every time-axis getter. -/
 theorem C18_deps_AnalysisPeriod : Gen.LazyDeps.tblAnalysisPeriod.wellFormed = true := by decide +kernel
+/-- AnalysisPeriod: every history of reads is order-independent. -/
+theorem C18_history_AnalysisPeriod (ops : List TOp) :
+    ∀ v ∈ runT Gen.LazyDeps.tblAnalysisPeriod TState.empty ops, v = Verdict.ok :=
+  C18_table_sound _ C18_deps_AnalysisPeriod ops
 
 /-- HourlyPlot: hour/month label caches; every label list is filled by its own getter and exists
 after `__init__` (fails on a tree without `_hour_text_24 = None`). -/
 theorem C18_deps_HourlyPlot : Gen.LazyDeps.tblHourlyPlot.wellFormed = true := by decide +kernel
+/-- HourlyPlot: every history of reads is order-independent. -/
+theorem C18_history_HourlyPlot (ops : List TOp) :
+    ∀ v ∈ runT Gen.LazyDeps.tblHourlyPlot TState.empty ops, v = Verdict.ok :=
+  C18_table_sound _ C18_deps_HourlyPlot ops
 
-/-- WindRose: every setter clears the cached container it invalidates; `windrose_lines` fills what
-it reads (fails on a tree where `frequency_hours` keeps the container or `_poly_array` is kept). -/
+/-- WindRose: every setter clears the cached container it invalidates (fails on a tree where
+`frequency_hours` keeps the container or `windrose_lines` keeps `_poly_array` under a guard). -/
 theorem C18_deps_WindRose : Gen.LazyDeps.tblWindRose.wellFormed = true := by decide +kernel
+/-- WindRose: every history of reads and of its eight setters is order-independent and equals a
+fresh object with the final settings. -/
+theorem C18_history_WindRose (ops : List TOp) :
+    ∀ v ∈ runT Gen.LazyDeps.tblWindRose TState.empty ops, v = Verdict.ok :=
+  C18_table_sound _ C18_deps_WindRose ops
 
 /-- MonthlyChart: cached axis/label points do not read the Y-axis limits that
 `set_minimum_by_index` / `set_maximum_by_index` change. -/
 theorem C18_deps_MonthlyChart : Gen.LazyDeps.tblMonthlyChart.wellFormed = true := by decide +kernel
+/-- MonthlyChart: every history of reads and limit changes is order-independent. -/
+theorem C18_history_MonthlyChart (ops : List TOp) :
+    ∀ v ∈ runT Gen.LazyDeps.tblMonthlyChart TState.empty ops, v = Verdict.ok :=
+  C18_table_sound _ C18_deps_MonthlyChart ops
 
 /-- PsychrometricChart: seven optional geometry caches. -/
 theorem C18_deps_PsychrometricChart : Gen.LazyDeps.tblPsychrometricChart.wellFormed = true := by
   decide +kernel
+/-- PsychrometricChart: every history of reads is order-independent. -/
+theorem C18_history_PsychrometricChart (ops : List TOp) :
+    ∀ v ∈ runT Gen.LazyDeps.tblPsychrometricChart TState.empty ops, v = Verdict.ok :=
+  C18_table_sound _ C18_deps_PsychrometricChart ops
 
 /-- Compass: no caches at all (every property is recomputed from the five settings). -/
 theorem C18_deps_Compass : Gen.LazyDeps.tblCompass.wellFormed = true := by decide +kernel
+/-- Compass: every history of reads and setter calls is order-independent. -/
+theorem C18_history_Compass (ops : List TOp) :
+    ∀ v ∈ runT Gen.LazyDeps.tblCompass TState.empty ops, v = Verdict.ok :=
+  C18_table_sound _ C18_deps_Compass ops
+
+/-- HourlyContinuousCollection (with the members inherited from HourlyDiscontinuousCollection and
+BaseCollection): PARTIAL – the table restricted to reads is well-formed, so every history of reads
+is order-independent (`datetimes` is filled under its own guard from the header's analysis period).
+Missing: histories containing the in-place converters `convert_to_unit/ip/si`, which assign a new
+`_header` (with the same analysis period) without clearing `_datetimes`: at attribute granularity
+check T4 rejects them; on the real code the analysis period is unchanged (covered by the oracle only). -/
+theorem C18_deps_HourlyContinuousCollection_partial :
+    Gen.LazyDeps.tblHourlyContinuousCollection.readOnly.wellFormed = true := by decide +kernel
+/-- HourlyContinuousCollection: every history of reads is order-independent. -/
+theorem C18_history_HourlyContinuousCollection_partial (ops : List TOp) :
+    ∀ v ∈ runT Gen.LazyDeps.tblHourlyContinuousCollection.readOnly TState.empty ops, v = Verdict.ok :=
+  C18_table_sound _ C18_deps_HourlyContinuousCollection_partial ops
+
+/-- the full HourlyContinuousCollection table (with the in-place converters) fails T4 only -/
+example : Gen.LazyDeps.tblHourlyContinuousCollection.resetsOk = false ∧
+    Gen.LazyDeps.tblHourlyContinuousCollection.putWhole = true := by decide +kernel
+
+/-- non-vacuity: a WindRose history with setters and repeated reads -/
+example : runT Gen.LazyDeps.tblWindRose TState.empty [.get 7, .put 1, .get 7, .get 8, .put 5, .get 7] =
+    [.ok, .ok, .ok, .ok] := by decide +kernel
 
 /-- The table machine on the regenerated ViewSphere table: reading the two solid-angle tables in
 either order, repeatedly, always yields each getter's own expression (a test of the executable
